@@ -17,6 +17,30 @@ from .common import Violation
 REC = common.REC
 
 VALS = st.sampled_from([0.0, 1.0, -1.0, 0.5, 0.25, -2.75, 3.0, 1e-3, 1e3, 0.1, -0.3, 7.125])
+# "large baseline" histories (seeded change C16-e): every value of an example is OFFSET + a small spread, so
+# that a one-pass E[y^2]-E[y]^2 variance loses the answer to cancellation while the mean stays right
+SMALL = st.sampled_from([0.0, 0.1, -0.2, 0.35, 0.05, -0.15, 0.25, 0.3, -0.05])
+OFFSETS = [0.0, 0.0, 0.0, 1e6, -1e6, 1e8]
+
+
+def exact_mean_var(data):
+    """Exact (rational) mean and population variance per objective of a list of float vectors, plus a
+    forward-error allowance valid for any backward-stable algorithm (two-pass, Welford, pairwise):
+    n * eps * max|y| * (std + eps * max|y|) -- the condition number of the variance times the unit round-off."""
+    from fractions import Fraction
+
+    arr = np.array(data, float)
+    n, m = arr.shape
+    mean, var, allow = np.zeros(m), np.zeros(m), np.zeros(m)
+    eps = np.finfo(float).eps
+    for o in range(m):
+        fr = [Fraction(float(v)) for v in arr[:, o]]
+        mu = sum(fr) / n
+        va = sum((f - mu) ** 2 for f in fr) / n
+        mean[o], var[o] = float(mu), float(va)
+        big = float(np.max(np.abs(arr[:, o])))
+        allow[o] = 8 * max(n, 4) * eps * big * (np.sqrt(var[o]) + eps * big)
+    return mean, var, allow
 
 
 class Exec(common.BaseExec):
@@ -92,19 +116,20 @@ class Exec(common.BaseExec):
                 self.fail("predict-shape", {"mean": list(mus.shape), "cov": list(covs.shape)})
             for r, i in enumerate(idx):
                 data = self.ref[i]
-                if self.tm:
-                    want = np.mean(np.array(data), axis=0) if data else np.zeros(self.m)
-                else:
-                    want = np.zeros(self.m)
+                ex_mean, ex_var, allow = exact_mean_var(data) if data else (np.zeros(self.m), np.zeros(self.m), np.zeros(self.m))
+                want = ex_mean if self.tm else np.zeros(self.m)
                 REC.judged["mean"] += 1
+                if data and max(abs(float(v)) for y in data for v in y) >= 1e5:
+                    REC.faults["large_baseline_history"] += 1
                 if not np.allclose(mus[r], want, rtol=1e-12, atol=1e-12):
                     self.fail("running-mean-wrong", {"design": i, "n": len(data), "got": mus[r].tolist(), "want": want.tolist(), "tracked": self.tm})
                 if self.tv:
-                    wc = np.diag(np.var(np.array(data), axis=0)) if len(data) > 1 else np.eye(self.m) * self.nv
+                    wc = np.diag(ex_var) if len(data) > 1 else np.eye(self.m) * self.nv
                 else:
                     wc = np.eye(self.m)
+                tolm = 1e-10 * np.abs(wc) + 1e-12 + (np.diag(allow) if (self.tv and len(data) > 1) else 0.0)
                 REC.judged["var"] += 1
-                if not np.allclose(covs[r], wc, rtol=1e-10, atol=1e-12):
+                if not np.all(np.abs(covs[r] - wc) <= tolm):
                     self.fail("running-variance-wrong", {"design": i, "n": len(data), "got": covs[r].tolist(), "want": wc.tolist(), "tracked": self.tv})
         else:  # pragma: no cover
             raise core.HarnessError("unknown op " + name)
@@ -119,17 +144,22 @@ def make_machine(extra):
         @initialize(d_in=st.integers(1, 3), m=st.integers(1, 3), nv=st.sampled_from([0.01, 1.0, 2.5]), n=st.integers(1, 5), tm=st.booleans(), tv=st.booleans())
         def init(self, d_in, m, nv, n, tm, tv):
             self.ex.apply(["init", d_in, m, nv, n, tm, tv])
+            self.off = None
 
         @rule(data=st.data())
         def step(self, data):
             ex = self.ex
             kind = data.draw(st.sampled_from(["add"] * 5 + ["update"] * 2 + ["predict"] * 4 + ["clear", "toggle"]))
+            if self.off is None:
+                self.off = data.draw(st.sampled_from(OFFSETS))
             if kind == "add":
                 k = data.draw(st.integers(1, 4))
                 hi = ex.n - 1 if data.draw(st.integers(0, 9)) else ex.n + 1
                 idx = data.draw(st.lists(st.integers(0, hi), min_size=k, max_size=k))
                 as_set = data.draw(st.booleans())
-                Y = data.draw(st.lists(st.lists(VALS, min_size=ex.m, max_size=ex.m), min_size=k, max_size=k))
+                Y = data.draw(st.lists(st.lists(VALS if self.off == 0.0 else SMALL, min_size=ex.m, max_size=ex.m), min_size=k, max_size=k))
+                if self.off != 0.0:
+                    Y = [[self.off + v for v in row] for row in Y]
                 ex.apply(["add", idx, as_set, Y])
             elif kind == "update":
                 ex.apply(["update"])
@@ -194,4 +224,4 @@ def run_check(prop, tier, master, n_runs=None, budget_s=None):
     vac = None
     if summ["judged"].get("mean", 0) == 0 or summ_a["decided_judgements"].get("C16", 0) == 0:
         vac = "no prediction was judged"
-    core.finish("C16", tier, master, t0, coverage, out_viol, errors + err_a, ["predictions are judged only when the model was updated after its last change (stale reads are not part of the property)", "numpy mean / population variance as reference"], vac)
+    core.finish("C16", tier, master, t0, coverage, out_viol, errors + err_a, ["predictions are judged only when the model was updated after its last change (stale reads are not part of the property)", "exact rational mean / population variance as reference; variance allowance = condition-number bound of a backward-stable algorithm (large-baseline histories make one-pass E[y^2]-E[y]^2 formulas visible)"], vac)
